@@ -562,6 +562,13 @@ func genC14(p *Pkg) (map[string]string, error) {
 		fmt.Fprintf(&b, "/-- %s's deferred recover: the error is returned iff asUncatchableException recognises the panic value, else re-panicked. -/\ndef %s (recognised : Bool) : String := if recognised then \"err = ex\" else \"panic(x)\"\n\n", rf.name, rf.lean)
 	}
 
+	// ---- asUncatchableException's type switch as a decision FUNCTION
+	au, err := c14asUncatchableDecision(p)
+	if err != nil {
+		return nil, err
+	}
+	b.WriteString(au)
+
 	// ---- wrapJSFunc's `if err != nil` branch as a decision FUNCTION
 	wj, err := c14wrapJSFuncDecision(p)
 	if err != nil {
@@ -749,4 +756,38 @@ func c14wrapJSFuncDecision(p *Pkg) (string, error) {
 		"def wrapJSFuncDecision (hasErrorResult isException valIsObject hasValue assignable : Bool) : String :=\n" +
 		"  if hasErrorResult then (if " + strings.Join(conds, " && ") + " then \"return v.Export().(error)\" else \"return err\")\n" +
 		"  else \"panic(err)\"\n\n", nil
+}
+
+
+// c14asUncatchableDecision translates asUncatchableException: the ordered cases of its type switch over
+// (v implements uncatchableException, v is an error, isUncatchableException(v)).
+func c14asUncatchableDecision(p *Pkg) (string, error) {
+	d := p.FuncDecl("", "asUncatchableException")
+	if d == nil || len(d.Body.List) != 2 {
+		return "", fmt.Errorf("asUncatchableException: not in the translatable subset (statement count)")
+	}
+	ts, ok := d.Body.List[0].(*ast.TypeSwitchStmt)
+	if !ok || c14text(p, d.Body.List[1]) != "return nil" {
+		return "", fmt.Errorf("asUncatchableException: expected a type switch followed by `return nil`")
+	}
+	var b strings.Builder
+	b.WriteString("/-- asUncatchableException: the ordered cases of its type switch. -/\ndef asUncatchableDecision (isMarker isError chainUncatchable : Bool) : String :=\n")
+	for _, c := range ts.Body.List {
+		cc := c.(*ast.CaseClause)
+		if len(cc.List) != 1 || len(cc.Body) != 1 {
+			return "", fmt.Errorf("asUncatchableException: case not in the translatable subset")
+		}
+		typ := c14text(p, cc.List[0])
+		body := c14text(p, cc.Body[0])
+		switch {
+		case typ == "uncatchableException" && body == "return v":
+			b.WriteString("  if isMarker then \"return v\" else\n")
+		case typ == "error" && body == "if isUncatchableException(v) { return v }":
+			b.WriteString("  if isError then (if chainUncatchable then \"return v\" else \"return nil\") else\n")
+		default:
+			return "", fmt.Errorf("asUncatchableException: case %q with body %q not in the translatable subset", typ, body)
+		}
+	}
+	b.WriteString("  \"return nil\"\n\n")
+	return b.String(), nil
 }
